@@ -136,6 +136,20 @@ def run_case(case, ctx):
                             ctx.check(abs(sum(vals) - 1) <= 1e-9 if not exact else sum(ref.fr(x) for x in col) == 1, "basis:sum", f"sum_i f[i,{p}]({params[k]}) != 1")
         if requery:
             continue
+        # nodes of one call in arbitrary order, with repeats (first and last node in the same span, others elsewhere)
+        import random as _random
+
+        order = list(range(len(pn)))
+        _random.Random(len(pn) * 31 + j).shuffle(order)
+        order = order + order[:2]
+        if len(pn) >= 3:
+            order = [0] + order + [1 if len(pn) > 1 else 0]
+        o = call(lambda: f[:, j](tuple(pn[k] for k in order)))
+        if ctx.check(o.ok, f"basis:raises:{o.exc_name}:{kind}", f"f[:, {j}](unsorted nodes) raised {o.brief()}") and judged:
+            M = o.value
+            if ctx.check(isinstance(M, (tuple, list)) and len(M) == n and all(len(r) == len(order) for r in M), "basis:shape", f"f[:, {j}](unsorted nodes) has wrong shape"):
+                good = all(seq_ok([M[i][c] for i in range(n)], T[j][k]) for c, k in enumerate(order))
+                ctx.check(good, f"basis:unsorted-nodes:{kind}", f"f[:, {j}](nodes in arbitrary order) does not give the table values node by node")
         # single index, scalar and sequence u
         for i in case["idxs"]:
             o = call(lambda: f[i, j])
